@@ -43,7 +43,9 @@ pub fn classify(case: &LedgerCase, sec: &str, model: &crate::model::MResult, obs
 }
 
 pub fn check(case: &LedgerCase, obs: &mut Obs) -> Verdict {
-    let files = case.files();
+    // a third of the histories are handed over as two or three files (same row order)
+    let files = case.files_maybe_split();
+    if files.len() > 1 { obs.class("several-input-files"); }
     let res = match run_deltas(&files, &case.run_opts()) {
         Ok(r) => r,
         Err(RunErr::Panic(p)) => return classify_panic(&p, &files[0].1),
@@ -69,7 +71,7 @@ pub fn check(case: &LedgerCase, obs: &mut Obs) -> Verdict {
 }
 
 pub fn def() -> PropDef {
-    let mut d = PropDef::new("C01", "random valid histories built by a model-guided interpreter (Buy/Sell/RoC/SfLA/Split; 1-3 securities; up to 5 affiliates incl. registered; CAD/USD/EUR with explicit or Bank-of-Canada rates; separate commission currency; fractional and non-terminating quantities; shuffled file order; opening positions). Non-trivial = a sale made at a non-terminating per-share cost, or >=2 partial sales in a row, or >=2 affiliates interleaved on one security, or a commission in another currency, or a RoC after a split. Distinct = distinct case content (hash of the CSV + opening positions).");
+    let mut d = PropDef::new("C01", "random valid histories built by a model-guided interpreter (Buy/Sell/RoC/SfLA/Split; 1-3 securities; up to 5 affiliates incl. registered; CAD/USD/EUR with explicit or Bank-of-Canada rates; separate commission currency; fractional and non-terminating quantities; shuffled row order; a third of the histories cut into two or three input files; opening positions). Non-trivial = a sale made at a non-terminating per-share cost, or >=2 partial sales in a row, or >=2 affiliates interleaved on one security, or a commission in another currency, or a RoC after a split. Distinct = distinct case content (hash of the CSV + opening positions).");
     d.assumptions = vec!["totals stay below 1e13 so that 28-digit decimal arithmetic has headroom under the 1e-9 tolerance", "histories the tool rejects are skipped here (acceptance is checked by C04)", "the reference model in harness/src/model.rs encodes the rules as the property states them"];
     d.subs.push(Box::new(Sub::<LedgerCase> { name: "ledger", cases_quick: 90_000, cases_thorough: 1_500_000, strategy: Box::new(strategy), to_json: LedgerCase::to_json, from_json: LedgerCase::from_json, check }));
     d
